@@ -29,7 +29,7 @@ class Case:
 
 class Result:
     """what the implementation did on one case"""
-    __slots__ = ("case", "out", "outcursors", "failure", "flags")
+    __slots__ = ("case", "out", "outcursors", "failure", "flags", "ms")
 
     def __init__(self, case):
         self.case = case
@@ -37,13 +37,14 @@ class Result:
         self.outcursors = None
         self.failure = None  # ("PANIC"|"HANG"|"CRASH", detail)
         self.flags = set()
+        self.ms = None
 
 
 def _unhex(h):
     return b"" if h == "-" else bytes.fromhex(h)
 
 
-def _run_shard(vh, mode, cases, workdir, idx, per_case_timeout):
+def _run_shard(vh, mode, cases, workdir, idx, per_case_timeout, case_limit_ms=20000):
     """returns (list of trace files, {id: failure})"""
     files = []
     failures = {}
@@ -58,10 +59,11 @@ def _run_shard(vh, mode, cases, workdir, idx, per_case_timeout):
         size = sum(len(c.input_bytes()) for c in remaining)
         timeout = 20 + per_case_timeout * len(remaining) + size / 20000.0
         try:
-            p = subprocess.run([vh, mode, cf, of], stdout=subprocess.PIPE, stderr=subprocess.PIPE, timeout=timeout, env=build.ENV)
+            env = dict(build.ENV, VH_CASE_TIMEOUT_MS=str(case_limit_ms))
+            p = subprocess.run([vh, mode, cf, of], stdout=subprocess.PIPE, stderr=subprocess.PIPE, timeout=timeout, env=env)
             rc = p.returncode
-            status = "CRASH" if rc != 0 else None
-            detail = "exit %d %s" % (rc, p.stderr.decode("utf-8", "replace")[-300:]) if rc != 0 else ""
+            status = ("HANG" if rc == 97 else "CRASH") if rc != 0 else None
+            detail = ("no result within the per-case time limit" if rc == 97 else "exit %d %s" % (rc, p.stderr.decode("utf-8", "replace")[-300:])) if rc != 0 else ""
         except subprocess.TimeoutExpired:
             status, detail = "HANG", "no result within %.0fs" % timeout
         files.append(of)
@@ -91,7 +93,7 @@ def _run_shard(vh, mode, cases, workdir, idx, per_case_timeout):
     return files, failures
 
 
-def run_cases(cases, mode="trace", workdir=None, per_case_timeout=0.5, plain=False, keep=False):
+def run_cases(cases, mode="trace", workdir=None, per_case_timeout=0.5, plain=False, keep=False, case_limit_ms=20000):
     """runs the harness on all cases; returns (results dict id->Result, trace files)"""
     vh = build.VH_PLAIN if plain else build.VH
     workdir = workdir or os.path.join(build.CACHE, "run", "%d_%d" % (os.getpid(), int(time.time() * 1000) % 10**9))
@@ -101,7 +103,7 @@ def run_cases(cases, mode="trace", workdir=None, per_case_timeout=0.5, plain=Fal
     results = {c.id: Result(c) for c in cases}
     files = []
     with ThreadPoolExecutor(max_workers=nsh) as ex:
-        futs = [ex.submit(_run_shard, vh, mode, sh, workdir, i, per_case_timeout) for i, sh in enumerate(shards) if sh]
+        futs = [ex.submit(_run_shard, vh, mode, sh, workdir, i, per_case_timeout, case_limit_ms) for i, sh in enumerate(shards) if sh]
         for fu in futs:
             fs, fails = fu.result()
             files += fs
@@ -130,6 +132,8 @@ def run_cases(cases, mode="trace", workdir=None, per_case_timeout=0.5, plain=Fal
                     loc = p[1].decode() if len(p) > 1 else ""
                     msg = _unhex(p[2].decode()).decode("utf-8", "replace") if len(p) > 2 else ""
                     cur.failure = ("PANIC", loc + " " + msg)
+                elif line.startswith(b"TIME "):
+                    cur.ms = int(line.split()[1])
                 elif line.startswith(b"DRIFT"):
                     cur.flags.add("DRIFT")
                 elif line.startswith(b"CURSORDEP"):
